@@ -16,7 +16,7 @@ type Board struct {
 	STM            Color
 	EnPassant      Square
 	Castles        Castles
-	FiftyCnt       Depth
+	FiftyCnt       HalfMoves
 }
 
 func StartPos() *Board {
@@ -57,13 +57,17 @@ func (b *Board) CaptureSq(m move.Move) Square {
 
 var hashEnable = [2]Hash{0, 0xffffffffffffffff}
 
+// HalfMoves is the halfmove clock: plies since the last capture or pawn move.
+// It is wider than Depth, a game can go on for more than 127 reversible plies.
+type HalfMoves int16
+
 // Reverse is move reversing token. After making a move on the board this can
 // be used to reverse the move.
 type Reverse uint64
 
 const (
-	fiftyCntMask        = Reverse(0x00000000000000ff)
-	fiftyCntShift       = 0
+	fiftyCntMask        = Reverse(0x0000ffff00000000)
+	fiftyCntShift       = 32
 	castlingChangeMask  = Reverse(0x0000000000000f00)
 	castlingChangeShift = 8
 	epChangeMask        = Reverse(0x000000000003f000)
@@ -72,8 +76,10 @@ const (
 	captureShift        = 18
 )
 
-func (r Reverse) fiftyCnt() Depth       { return Depth((r & fiftyCntMask) >> fiftyCntShift) }
-func (r *Reverse) setFiftyCnt(fc Depth) { *r = (*r & ^fiftyCntMask) | Reverse(fc)<<fiftyCntShift }
+func (r Reverse) fiftyCnt() HalfMoves { return HalfMoves((r & fiftyCntMask) >> fiftyCntShift) }
+func (r *Reverse) setFiftyCnt(fc HalfMoves) {
+	*r = (*r & ^fiftyCntMask) | (Reverse(fc)<<fiftyCntShift)&fiftyCntMask
+}
 func (r Reverse) castlingChange() Castles {
 	return Castles((r & castlingChangeMask) >> castlingChangeShift)
 }
